@@ -283,7 +283,131 @@ def _conds(ps):
     return [(pol, v) for _, pol, v in ps.conds if isinstance(v, tuple)]
 
 
+def _judge_counting(model):
+    """interpretive judges for the counting phase (pv/absint.py):
+    NormalizedKeyGetter.__call__ on token nodes -- two commutative nodes get
+    equal keys iff they have the same class and the same multiset of operands,
+    any other node is its own key; UseCountMapper.visit on a sequence of nodes
+    -- returns True exactly at the first encounter of a key and counts every
+    encounter.  -> (witnesses for the key getter, witnesses for visit)"""
+    import collections
+    import itertools
+    from ..absint import Interp, Opaque, Raised
+
+    class Tok:
+        def __init__(self, cls_, children=()):
+            self.cls_, self.children = cls_, tuple(children)
+
+        def __repr__(self):
+            return f"{self.cls_}{list(self.children)}"
+    kg = model.cls(f"{CSE}:NormalizedKeyGetter")
+    call = kg.members["__call__"].node
+    comm_names = []
+    val = model.module_assigns[f"{CSE}:COMMUTATIVE_CLASSES"][1]
+    if isinstance(val, ast.Tuple):
+        comm_names = [e.attr if isinstance(e, ast.Attribute) else ast.unparse(e)
+                      for e in val.elts]
+
+    def mk():
+        def isinst(it, n_, a, k):
+            what = getattr(a[1], "what", "")
+            if what == "COMMUTATIVE":
+                return isinstance(a[0], Tok) and a[0].cls_ in comm_names
+            raise AnalysisError(f"isinstance(..., {a[1]!r})")
+
+        def attrs(it, n_, base, attr):
+            if isinstance(base, Tok) and attr == "children":
+                return base.children
+            return Opaque(ast.unparse(n_))
+        return Interp(calls={
+            "isinstance": isinst,
+            "type": lambda it, n_, a, k: ("type", a[0].cls_),
+            "Counter": lambda it, n_, a, k: collections.Counter(a[0]),
+            "collections.Counter": lambda it, n_, a, k: collections.Counter(a[0]),
+        }, attrs=attrs, globals_={"COMMUTATIVE_CLASSES": Opaque("COMMUTATIVE")},
+            max_steps=20000)
+    leaves = ["a", "b", "c"]
+    nodes = []
+    for cls_ in ("Sum", "Product", "Power", "BitwiseOr", "Min", "Quotient"):
+        for k in (2, 3) if cls_ in ("Sum", "Product", "Power") else (2,):
+            for ch in itertools.product(leaves, repeat=k):
+                nodes.append(Tok(cls_, ch))
+    keys = {}
+    w1 = []
+    for nd in nodes:
+        try:
+            keys[nd] = mk().call_function(call, [Opaque("self"), nd], {})
+        except Raised as r:
+            w1.append(f"key of {nd}: raises at line {r.node.lineno}")
+            return w1, []
+    for x, y in itertools.combinations(nodes, 2):
+        same_key = keys[x] == keys[y]
+        if x.cls_ in ("Sum", "Product"):     # the property's two classes
+            want = x.cls_ == y.cls_ and collections.Counter(
+                x.children) == collections.Counter(y.children)
+        else:
+            want = False          # every other node is its own key
+        if same_key != want and len(w1) < 5:
+            w1.append(f"{x} and {y}: keys {'equal' if same_key else 'differ'}, "
+                      f"expected {'equal' if want else 'different'}")
+    for nd in nodes:
+        if nd.cls_ not in ("Sum", "Product") and keys[nd] is not nd and \
+                len(w1) < 5:
+            w1.append(f"{nd} (not commutative) is not its own key: {keys[nd]!r}")
+    # UseCountMapper.visit
+    uc = model.cls(f"{CSE}:UseCountMapper")
+    visit = uc.members["visit"].node
+    w2 = []
+    seqs = [["k1"], ["k1", "k1"], ["k1", "k2", "k1", "k1"], ["k1", "k2", "k2"]]
+    for seq in seqs:
+        counts = {}
+
+        class Mp:
+            pass
+        mp = Mp()
+
+        def attrs(it, n_, base, attr):
+            if base is mp and attr == "subexpr_counts":
+                return counts
+            if base is mp and attr == "get_key":
+                return lambda e_: e_
+            return Opaque(ast.unparse(n_))
+        rets = []
+        try:
+            for kx in seq:
+                it = Interp(attrs=attrs, max_steps=5000)
+                rets.append(it.call_function(visit, [mp, kx], {}))
+        except Raised as r:
+            w2.append(f"visits {seq}: raises at line {r.node.lineno}")
+            continue
+        want_rets = [seq.index(kx) == i for i, kx in enumerate(seq)]
+        want_counts = dict(collections.Counter(seq))
+        if [bool(r_) for r_ in rets] != want_rets or any(
+                not isinstance(r_, bool) for r_ in rets) or counts != want_counts:
+            w2.append(f"visits {seq}: returns {rets}, counts {counts}; expected "
+                      f"{want_rets}, {want_counts}")
+    return w1, w2
+
+
 def _key_getter(ctx, model):
+    w1, _ = _judge_counting(model)
+    kg_ = model.cls(f"{CSE}:NormalizedKeyGetter")
+    ctx.ob("T0/NormalizedKeyGetter/key-semantics", not w1, kg_.loc(),
+           "keys of 108 token nodes: equal exactly for commutative nodes of one "
+           "class with the same multiset of operands; any other node is its own "
+           "key" if not w1 else "NormalizedKeyGetter: " + "; ".join(w1[:3]))
+    mark = len(ctx.obs)
+    try:
+        _key_getter_structural(ctx, model)
+    except AnalysisError:
+        if w1:
+            raise
+    if not w1:
+        ctx.withdraw_failures_since(mark, "decided by interpreting the key "
+                                    "getter on token nodes")
+
+
+def _key_getter_structural(ctx, model):
     m = model.repo.module(CSE)
     key = f"{CSE}:COMMUTATIVE_CLASSES"
     if key not in model.module_assigns:
@@ -338,6 +462,24 @@ def _key_getter(ctx, model):
 
 
 def _use_count(ctx, model):
+    _, w2 = _judge_counting(model)
+    uc_ = model.cls(f"{CSE}:UseCountMapper")
+    ctx.ob("P0/UseCountMapper.visit/count-semantics", not w2, uc_.loc(),
+           "visit interpreted on key sequences: True at the first encounter only, "
+           "every encounter counted" if not w2 else
+           "UseCountMapper.visit: " + "; ".join(w2[:3]))
+    mark = len(ctx.obs)
+    try:
+        _use_count_structural(ctx, model)
+    except AnalysisError:
+        if w2:
+            raise
+    if not w2:
+        ctx.withdraw_failures_since(mark, "decided by interpreting visit on key "
+                                    "sequences")
+
+
+def _use_count_structural(ctx, model):
     uc = model.cls(f"{CSE}:UseCountMapper")
     mem = uc.members.get("visit")
     loc = uc.module.loc(mem.node)
@@ -634,7 +776,7 @@ def _entry(ctx, model):
                   and rv[2][2] == (("elem", P),))
         mapper = rv[2][4] if ok_all else None
         ok_mapper = bool(mapper) and mapper[0] == "call" and \
-            mapper[1] == "CSEMapper" and len(mapper[2]) == 2
+            mapper[1] == "CSEMapper" and len(mapper[2]) >= 2
         # every expression is counted first, by one UseCountMapper
         counted = [e for e in ps.events if e.kind == "call" and content(
             e.args) == (("elem", P),) and isinstance(e.value, tuple) and e.value
@@ -647,7 +789,7 @@ def _entry(ctx, model):
                "CSEMapper")
         if not ok_mapper:
             continue
-        elim, kg = mapper[2]
+        elim, kg = mapper[2][:2]
         ucm = counted[0].value if counted else None
         same = ucm is not None and ucm[2] == (kg,)
         ctx.ob("S/tag_common_subexpressions/shared-key-getter", same, loc,
